@@ -412,6 +412,11 @@ func (e *Exec) consumeAll(c *CtxV) {
 // stubHandler: an arbitrary message handler: consumes arbitrary gas on the context it is given, changes its
 // state arbitrarily (fresh bank ledgers, a fresh marker), then returns ok / error / panics / runs out of gas.
 func (e *Exec) stubHandler(n int, c *CtxV) []Value {
+	if k, ok := e.extra["clock.calls"].(int); ok {
+		e.extra["clock.calls"] = k + 1 // a call into another component: wall-clock time passes (time.Since)
+	} else {
+		e.extra["clock.calls"] = 1
+	}
 	e.consumeAll(c) // arbitrary gas use; may exhaust the meter
 	e.bankInit(c.St)
 	// effects: some balance and some supply entry change arbitrarily, and an opaque marker is written
